@@ -226,3 +226,52 @@ func (c *Ctx) inPlaceAliasLint(rule string, fld *types.Var, pkgs []string, floor
 		c.undecided(fmt.Sprintf("%s: only %d functions read %s", rule, nfn, fld.Name()))
 	}
 }
+
+// rulesC01net: the network machine's two clock representations are refreshed
+// together for EVERY state.
+func (c *Ctx) rulesC01net() {
+	c.rule("C01.net", "NetworkMachine.updateClock refreshes the per-name clock map (machClock) from the whole new time slice: every write to machClock there stores the element of the time slice at the index of a range loop over that slice (a refresh limited to (de)activated states misses ticks that changed without a parity change, e.g. Multi re-activations, so Tick()/Clock()/WhenTime disagree with Time())")
+	fC := c.field(prpc, "NetworkMachine", "machClock")
+	fT := c.field(prpc, "NetworkMachine", "machTime")
+	uc := c.fn(prpc + ":NetworkMachine.updateClock")
+	if fC == nil || fT == nil || uc == nil {
+		return
+	}
+	var now ssa.Value
+	for _, p := range uc.Params {
+		if nt := namedOf(p.Type()); nt != nil && nt.Obj().Name() == "Time" {
+			now = p
+		}
+	}
+	n := 0
+	for i, w := range writesOfFieldIn(uc, fC) {
+		n++
+		key := fmt.Sprintf("updateClock: machClock write%s covers every state", nth(i))
+		if w.Kind != "mapupdate" {
+			if w.Kind == "assign" && now != nil && flowsFrom(w.Val, func(v ssa.Value) bool { return v == now }) {
+				c.ok("C01.net", key, w.Instr.Pos(), "whole map rebuilt from the new time slice")
+				continue
+			}
+			c.undecided("C01.net: " + key + ": unrecognised write kind " + w.Kind)
+			continue
+		}
+		good := false
+		if ld, ok := w.Val.(*ssa.UnOp); ok && ld.Op == token.MUL {
+			if ia, ok := ld.X.(*ssa.IndexAddr); ok {
+				full := ia.X == now || loadOfField(ia.X) == fT
+				if bo, ok := ia.Index.(*ssa.BinOp); ok && full {
+					if ph, ok := bo.X.(*ssa.Phi); ok && ph.Comment == "rangeindex" {
+						good = true
+					}
+				}
+			}
+		}
+		c.check(good, "C01.net", key, w.Instr.Pos(), "the machClock entry is not assigned from a range over the whole new time slice: states whose tick changed but which are not visited keep their old clock entry")
+	}
+	if n < 1 {
+		c.undecided("C01.net: no write to machClock in updateClock")
+	}
+	// machTime and machClock are replaced together
+	wt := len(writesOfFieldIn(uc, fT)) > 0
+	c.check(wt, "C01.net", "updateClock stores machTime", uc.Pos(), "machClock refreshed without machTime")
+}
